@@ -756,6 +756,14 @@ where
                 .write()
                 .with(|mut shard| shard.get_mutable(hash, key)),
         }
+        // The lookup raised the reference count and acquired the record in the eviction container.
+        // Hand it to an entry, so that both are given back when the entry is dropped right away.
+        .map(|record| RawCacheEntry {
+            pipe: self.pipe.clone(),
+            inner: self.inner.clone(),
+            record,
+            source: Source::Memory,
+        })
         .is_some()
     }
 
